@@ -88,6 +88,8 @@ def rand_str(rng, maxlen=12):
     return "".join(rand_scalar(rng) for _ in range(rng.randint(0, maxlen)))
 
 
+CASE_SAFE = set("abcdefghijklmnopqrstuvwxyzABCDEFGHIJKLMNOPQRSTUVWXYZ0123456789 ßﬁﬂŉǰΐİΣσςΟΔΑΒοδαβéàñüÉÀÑÜжЖдДS")
+
 # ---- oracle in plain Python (third opinion; byte offsets of the UTF-8 encoding) -------------------
 def py_oracle(cmd, args):
     """returns the expected wire result or None when Python has no plain counterpart"""
@@ -409,6 +411,11 @@ def run(ck):
     add("lowercase", ["".join(chr(c) for c in range(128))], "case-ascii")
     add("uppercase", ["straße ǆ"], "case-unicode")     # outside the model's domain: counted, not compared
     add("lowercase", ["İSTANBUL Σ"], "case-unicode")
+    # one-to-many and context-dependent case mappings (stable since Unicode 3-8): compared with Python's full mapping
+    for w in ["straße", "ß", "ﬁn", "ﬂag ﬁx", "ŉ", "ǰ", "ΐ", "groß", "éàñü жд", "Maße und ﬁsche"]:
+        add("uppercase", [w], "case-special")
+    for w in ["İ", "İSTANBUL", "ΟΔΟΣ", "ΣΑΣ", "Σ", "ΑΣ ΒΣ", "ÉÀÑÜ ЖД", "STRASSE", "ΟΔΟΣ ΟΔΟΣ"]:
+        add("lowercase", [w], "case-special")
 
     # (f) decimal comparison
     bad_num = ["", "abc", "1_0", " 1", "1 ", "0x10", ".", "e5", "1e", "1e+", "--1", "+-1", "1.2.3", "١", "+", "-", "1e5x",
@@ -499,6 +506,14 @@ def run(ck):
             ood += 1
             if i == "PANIC" or i.startswith("X") or i.startswith("DIED"):
                 report("implementation failed outside the modelled domain", cmd, args, r_lines[k], m, i, ["C16_never_ood"])
+            elif cmd in ("uppercase", "lowercase") and args and all(c in CASE_SAFE for c in args[0]):
+                # outside the ASCII model, but inside the set of characters whose full case mapping (incl. the one-to-many
+                # SpecialCasing entries and final sigma) has been stable across Unicode versions: Python's str.upper / lower
+                # is the plain string operation the property names
+                want = "V" + enc_str(args[0].upper() if cmd == "uppercase" else args[0].lower())
+                if i != want:
+                    report("implementation-vs-plain-operation (full Unicode case mapping, Python oracle)", cmd, args, r_lines[k], m, i,
+                           [], {"python_oracle": want})
             continue
         if m[:1] in "VL" and any(a != "" for a in args):
             nontriv.add(r_lines[k])
